@@ -49,6 +49,12 @@ DONE = {
  "C20": ("property-based model testing: Space::knn against a brute-force sort with exact tie handling; bounding spheres against containment predicates and a brute-force minimum over all 2-, 3-, 4-point support sets (proptest, sharded; hooks space_knn, welzl, epos6, epos6_spheres)",
          "Exploration: thousands of generated boxes (aspect to 2^4 quick / 2^6 thorough, offsets to 2^20 widths), grids of 1..16/40 cells per axis or one cell, particle sets n = 1..400/600 (uniform, clustered, exact lattices, thin slabs), k in {0, 1, n-1, any}; every particle's list compared rank by rank; Welzl minimality for n <= 14, containment for Welzl (n <= 60), Epos6 and Epos6 spheres-of-spheres.",
          "Trusted: brute-force oracles of the harness. Welzl is not run on exact lattices (exactly collinear / co-spherical support sets are degenerate for an exact solver without perturbation); Welzl::bounding_sphere_of_spheres is unimplemented!() by design.", "5 C20"),
+ "C05": ("property-based testing on degenerate-weighted generated inputs in release and debug-assertion builds: totality (no panic), finiteness, and the unchanged oracles of C01-C04 on the same results; hook counter proves the exact predicate ran",
+         "Exploration: 12 000 (quick) / 400 000 (thorough) generated degenerate inputs per build profile (exact / perturbed lattices, wall / edge / corner points, co-spherical, collinear, coplanar, dyadic, shared-coordinate, clusters to 1e-12, n = 1, 2; plus lattices in far-from-origin boxes perturbed at the level of the coordinate rounding), masks mixed, all dimensionalities, periodic or not.",
+         "Trusted: the oracles of C01-C04 with their stated exemptions (ill-conditioned cells, unresolvable arrangements). Termination is observed through a watchdog (exit 2 = inconclusive, never a violation).", "5 C05"),
+ "C14": ("compile-time check of a separate downstream crate + property-based differential testing of the recorded decomposition (signed moments up to degree 2, face triangles) against the brute-force reference cell; data delivery under generated masks; default and sequential builds of the library",
+         "Exploration: 3 000 (quick) / 100 000 (thorough) generated inputs x masks per build (rayon and sequential), all dimensionalities, periodic or not, 3D also through with_faces(); every constructed cell's tetrahedra and every face's base triangles are recorded by trait implementations living in /verif/downstream.",
+         "Trusted: the harness' reference model and the orientation rule as documented; by linearity the 10 monomials decide all polynomial integrands of degree <= 2, higher degrees are not exercised. Exempt: with_faces() integrals of ill-conditioned cells (known finding).", "5 C14"),
 }
 NOT_YET = "check under construction (work in progress; see DESIGN.md section 5)"
 ALL = ["C%02d" % i for i in range(1, 21)]
@@ -62,7 +68,7 @@ for pid in ALL:
             "thorough_cmd": f"./check {pid} --tier thorough",
             "evidence_file": f"/verif/evidence/{pid}.json",
             "replay_cmd_template": f"./check {pid} --replay {{path}}",
-            "engine": "mvv",
+            "engine": "mvv14" if pid == "C14" else "mvv",
             "level_claimed": {"category": "exploration", "text": text, "design_ref": "DESIGN.md section " + ref},
             "level_note": note,
             "technique": tech,
@@ -79,7 +85,7 @@ m = {
    "source_commits": hook_commits,
    "add_only": True,
  },
- "engines": [{"name": "mvv", "path": "/verif/harness", "serves_properties": sorted(DONE), "kind_free_text": "Rust harness: sharded proptest runner (one process per shard), case files with bit-exact floats, brute-force reference model, replay / minimise / survey commands; cargo-fuzz targets share the oracles"}],
+ "engines": [{"name": "mvv14", "path": "/verif/c14", "serves_properties": ["C14"], "kind_free_text": "satellite binary of the same engine (shares runner, generators, reference model through the mvv library) that links the downstream crate /verif/downstream; separate so that a compile failure of the downstream crate (the first clause of C14) cannot break the other checks"}, {"name": "mvv", "path": "/verif/harness", "serves_properties": sorted(p for p in DONE if p != "C14"), "kind_free_text": "Rust harness: sharded proptest runner (one process per shard), case files with bit-exact floats, brute-force reference model, replay / minimise / survey commands; cargo-fuzz targets share the oracles"}],
  "checks": checks,
  "not_applicable": [{"property_id": p, "reason": NOT_YET} for p in ALL if p not in DONE],
  "notes": "Every check is `./check <ID>`: rebuilds the harness against /repo's working tree, runs 16 shard processes, writes evidence/<ID>.json. exit 0 held / 1 VIOLATION / 2 inconclusive (build failure, watchdog, generator regression). Known findings: known_findings.txt.",
